@@ -14,6 +14,10 @@ def can_empty(n: Node) -> bool:
     k, a = n.k, n.a
     if k in ("bytesgreedy", "null", "ifpresent", "optflagged"):
         return True
+    if k == "ctxswitch":
+        return any(can_empty(c) for c in n.ch)
+    if k == "ctxadapter":
+        return can_empty(n.ch[0])
     if k in ("bytesterm", "cstr"):
         return a[2]
     if k in ("bytesfixed", "strfixed"):
@@ -270,6 +274,55 @@ def gen_flag_template(rng, depth, need_delim, sloppy, stage2):
     return Node("template", (tuple(names), rng.random() < 0.5), chs)
 
 
+def gen_ctx_template(rng, depth, need_delim, sloppy, stage2):
+    """a Template whose first member is an int-valued key field and whose later members are ContextSwitch /
+    ContextAdapter options selected by it"""
+    sub = lambda nd: gen_spec(rng, depth - 1, nd, sloppy, stage2, True)
+    n = rng.choice((2, 3))
+    names = rng.sample(range(0, 8), n)
+    keyvals = rng.sample(range(0, 6), 3)
+    if rng.random() < 0.5:
+        first = Node("prim", ("u", 1))
+    else:
+        first = Node("adapter", (("enum", False, tuple(zip(rng.sample(range(0, 9), 3), keyvals))),), [Node("prim", ("u", 1))])
+    chs = [first]
+    for i in range(1, n):
+        nd = True if i < n - 1 else need_delim
+        if rng.random() < 0.5:
+            keys = list(rng.sample(keyvals, rng.randrange(1, 3)))
+            if rng.random() < 0.7:
+                keys.append(None)
+            chs.append(Node("ctxswitch", (names[0], tuple(keys)), [sub(nd) for _ in keys]))
+        else:
+            ip = rng.choice([("u", 1), ("u", 2), ("s", 2), ("u", 4)])
+            opts = []
+            for kk in rng.sample(keyvals, rng.randrange(1, 3)) + ([None] if rng.random() < 0.7 else []):
+                c = rng.random()
+                ad = None if c < 0.3 else (("bool",) if c < 0.45 else (("enum", rng.random() < 0.3, gen_tbl(rng)) if c < 0.75
+                                                                     else ("flag", gen_tbl(rng, flags=True))))
+                opts.append((kk, ad))
+            chs.append(Node("ctxadapter", (names[0], tuple(opts)), [Node("prim", ip)]))
+    return Node("template", (tuple(names), rng.random() < 0.3), chs)
+
+
+def gen_flagswitch(rng, depth, need_delim, sloppy, stage2):
+    sub = lambda nd: gen_spec(rng, depth - 1, nd, sloppy, stage2, True)
+    tbl = gen_tbl(rng, flags=True)
+    w = 4 if any(z >= 128 for _, z in tbl) else rng.choice((1, 2, 4))
+    choices = rng.sample(list(tbl), rng.randrange(1, len(tbl) + 1))
+    choices.sort(key=lambda c: list(tbl).index(c))
+    chs = [sub(True if i < len(choices) - 1 else need_delim) for i in range(len(choices))]
+    return Node("flagswitch", (tbl, rng.random() < 0.2, w, tuple(choices)), chs)
+
+
+def ctx_choice(n: Node, ctxd):
+    from harness.translate import c08_specs as S
+    try:
+        return S.ctx_choice(n, ctxd)
+    except S.Shape as ex:
+        raise NoValue(str(ex))
+
+
 def gen_wave2(rng, depth, need_delim, sloppy, stage2):
     sub = lambda nd: gen_spec(rng, depth - 1, nd, sloppy, stage2, True)
     r = rng.random()
@@ -283,7 +336,11 @@ def gen_wave2(rng, depth, need_delim, sloppy, stage2):
         n = rng.choice((1, 2, 3))
         names = tuple(rng.sample(range(0, 8), n))
         return Node("dataclass", (names,), [sub(True if i < n - 1 else need_delim) for i in range(n)])
-    return gen_flag_template(rng, depth, need_delim, sloppy, stage2)
+    if r < 0.85:
+        return gen_flag_template(rng, depth, need_delim, sloppy, stage2)
+    if r < 0.94:
+        return gen_ctx_template(rng, depth, need_delim, sloppy, stage2)
+    return gen_flagswitch(rng, depth, need_delim, sloppy, stage2)
 
 
 def gen_stage2(rng, depth, need_delim, sloppy, stage2):
@@ -421,6 +478,24 @@ def gen_value(n: Node, pod: bool, rng, ctxd=None):
         if flag_int(n, ctxd) & a[2]:
             return gen_value(n.ch[0], pod, rng, ctxd)
         return None
+    if k == "ctxswitch":
+        return gen_value(n.ch[ctx_choice(n, ctxd)], pod, rng, ctxd)
+    if k == "ctxadapter":
+        ad = a[1][ctx_choice(n, ctxd)][1]
+        c = n.ch[0]
+        lo, hi = ip_range(c.a[0] == "s", c.a[1])
+        if ad is None:
+            return gen_int(rng, lo, hi)
+        return gen_sadapter_int(ad, lo, hi, pod, rng)
+    if k == "flagswitch":
+        from harness.translate import c08_specs as S
+        tbl, sg, w, choices = a
+        cls = S.flag_cls(tbl)
+        out = {}
+        for (nm, z), c in zip(choices, n.ch):
+            if rng.random() < 0.6:
+                out[("F%d" % nm) if pod else cls["F%d" % nm]] = gen_value(c, pod, rng, ctxd)
+        return out
     if k == "coord":
         comps = [gen_value(c, pod, rng) for c in n.ch]
         if pod:
